@@ -19,6 +19,9 @@ Alpha == {47, 126, 48, 49, 50, 97, 65, 45}
 LongPtrs == {<<47>> \o [i \in 1..20 |-> IF i = 1 THEN 49 ELSE 48], <<47, 49, 56, 52, 52, 54, 55, 52, 52, 48, 55, 51, 55, 48, 57, 53, 53, 49, 54, 49, 55>>,
              <<47, 97, 47, 50, 47, 126, 49>>, <<47, 47, 126, 48>>, <<47, 109, 126, 48, 110>>, <<47, 97, 126, 49, 98>>, <<47, 48, 49>>, <<47, 49, 47, 48>>, <<47, 49, 48, 47, 49>>}
 
+\* what a C library number parser would take for an index but RFC 6901 does not: sign, blanks, hexadecimal, exponent, fraction (strtoul / strtod spellings)
+OddIdx == {<<43, 49>>, <<43, 48>>, <<32, 49>>, <<49, 32>>, <<9, 48>>, <<48, 120, 49>>, <<49, 101, 48>>, <<49, 46, 48>>, <<45, 49>>, <<45, 48>>, <<48, 48>>, <<49, 10>>, <<32>>, <<43>>}
+OddIdxPtrs == UNION {{<<47>> \o t, <<47, 97, 47>> \o t, <<47, 48, 47>> \o t, <<47, 50, 47>> \o t} : t \in OddIdx}
 \* index tokens that do not fit into 32 / 64 bits: they designate nothing, whatever they are congruent to (generated: 2^64+j, 2^32+j, 2^31.., 2^63.., ...)
 BigIndexPtrs == {<<47, 49, 56, 52, 52, 54, 55, 52, 52, 48, 55, 51, 55, 48, 57, 53, 53, 49, 54, 49, 54>>, <<47, 49, 56, 52, 52, 54, 55, 52, 52, 48, 55, 51, 55, 48, 57, 53, 53, 49, 54, 49, 55>>, <<47, 49, 56, 52, 52, 54, 55, 52, 52, 48, 55, 51, 55, 48, 57, 53, 53, 49, 54, 49, 56>>, <<47, 49, 56, 52, 52, 54, 55, 52, 52, 48, 55, 51, 55, 48, 57, 53, 53, 49, 54, 49, 57>>, <<47, 49, 56, 52, 52, 54, 55, 52, 52, 48, 55, 51, 55, 48, 57, 53, 53, 49, 54, 50, 48>>, <<47, 49, 56, 52, 52, 54, 55, 52, 52, 48, 55, 51, 55, 48, 57, 53, 53, 49, 54, 50, 49>>, <<47, 49, 56, 52, 52, 54, 55, 52, 52, 48, 55, 51, 55, 48, 57, 53, 53, 49, 54, 50, 50>>, <<47, 49, 56, 52, 52, 54, 55, 52, 52, 48, 55, 51, 55, 48, 57, 53, 53, 49, 54, 50, 51>>, <<47, 49, 56, 52, 52, 54, 55, 52, 52, 48, 55, 51, 55, 48, 57, 53, 53, 49, 54, 50, 52>>, <<47, 49, 56, 52, 52, 54, 55, 52, 52, 48, 55, 51, 55, 48, 57, 53, 53, 49, 54, 50, 53>>, <<47, 49, 56, 52, 52, 54, 55, 52, 52, 48, 55, 51, 55, 48, 57, 53, 53, 49, 54, 50, 54>>, <<47, 49, 56, 52, 52, 54, 55, 52, 52, 48, 55, 51, 55, 48, 57, 53, 53, 49, 54, 50, 55>>, <<47, 49, 56, 52, 52, 54, 55, 52, 52, 48, 55, 51, 55, 48, 57, 53, 53, 49, 54, 50, 56>>, <<47, 52, 50, 57, 52, 57, 54, 55, 50, 57, 54>>, <<47, 52, 50, 57, 52, 57, 54, 55, 50, 57, 55>>, <<47, 52, 50, 57, 52, 57, 54, 55, 50, 57, 56>>, <<47, 52, 50, 57, 52, 57, 54, 55, 50, 57, 57>>, <<47, 50, 49, 52, 55, 52, 56, 51, 54, 52, 56>>, <<47, 50, 49, 52, 55, 52, 56, 51, 54, 52, 57>>, <<47, 57, 50, 50, 51, 51, 55, 50, 48, 51, 54, 56, 53, 52, 55, 55, 53, 56, 48, 56>>, <<47, 57, 50, 50, 51, 51, 55, 50, 48, 51, 54, 56, 53, 52, 55, 55, 53, 56, 49, 50>>, <<47, 53, 53, 51, 52, 48, 50, 51, 50, 50, 50, 49, 49, 50, 56, 54, 53, 52, 56, 53, 51>>, <<47, 51, 54, 56, 57, 51, 52, 56, 56, 49, 52, 55, 52, 49, 57, 49, 48, 51, 50, 52, 49>>, <<47, 57, 57, 57, 57, 57, 57, 57, 57, 57, 57, 57, 57, 57, 57, 57, 57, 57, 57, 57, 57>>, <<47, 49, 56, 52, 52, 54, 55, 52, 52, 48, 55, 51, 55, 48, 57, 53, 53, 49, 54, 49, 53>>, <<47, 52, 50, 57, 52, 57, 54, 55, 50, 57, 53>>, <<47, 48, 48>>, <<47, 49, 101, 48>>, <<47, 49, 48, 47, 49, 56, 52, 52, 54, 55, 52, 52, 48, 55, 51, 55, 48, 57, 53, 53, 49, 54, 49, 55>>, <<47, 49, 48, 47, 52, 50, 57, 52, 57, 54, 55, 50, 57, 54>>, <<47, 49, 48, 47, 49, 56, 52, 52, 54, 55, 52, 52, 48, 55, 51, 55, 48, 57, 53, 53, 49, 54, 50, 54>>}
 \* tokens of 254 ... 2049 raw bytes whose escape starts at every offset near those lengths: member names a...a/b under object, array and scalar parents
@@ -33,7 +36,7 @@ LadderInit == \E n \in TokLens : doc = LadderDoc(n) /\ ptr \in LadderPtrs(n) /\ 
 Init == (doc \in Docs /\ ptr = <<>> /\ phase = 0) \/ LadderInit
 Grow == /\ phase = 0 /\ Len(ptr) < MaxLen /\ \E c \in Alpha : ptr' = Append(ptr, c)
         /\ UNCHANGED <<doc, phase>>
-Jump == /\ phase = 0 /\ ptr = <<>> /\ \E p \in LongPtrs \cup BigIndexPtrs : ptr' = p
+Jump == /\ phase = 0 /\ ptr = <<>> /\ \E p \in LongPtrs \cup BigIndexPtrs \cup OddIdxPtrs : ptr' = p
         /\ phase' = 1 /\ UNCHANGED doc
 Next == Grow \/ Jump
 
